@@ -304,6 +304,16 @@ def c06(tier, seed):
     book_gen(ck, "gen_modify_cancel_mkt", Ops=["cap", "modify", "cancel"], Prices=[10, 11], ModPrices=[-1, 10, 11],
              ModVols=MODV, MaxOrders=3 if q else 4, MaxOps=4 if q else 5, need=("op_modify", "cancelled_order"), timeout=300 if q else 1500)
     cross(ck, q, "ties_modify", "off_modify", "split_modify")
+    # modification through the environments: a queued modify instruction is applied when the step processes it, to the order
+    # as it is THEN ("omitted fields keep their current values" - current at application, e.g. after a partial fill earlier
+    # in the same step); partial fills and price-only / volume-only modifies in one batch, every schedule
+    env_gen(ck, "gen_env_modify_partial", kind="env", seeds=8 if q else 32, StepSize=3, Ops=["new", "modify", "step"], Kinds=["L"], Prices=[10, 11],
+            Vols=[1, 2], ModPrices=[-1, 10, 11], ModVolsAbs=[-1, 1, 3], MaxSubmits=3 if q else 4, MaxBatch=2, MaxSteps=2, MaxOrders=2,
+            need=("has_modify", "has_trade", "schedule_matters"), timeout=400 if q else 1800)
+    env_gen(ck, "gen_menv_modify_partial", kind="menv", seeds=8 if q else 32, Ticks=(1, 1), StepSize=2, Ops=["new", "modify", "step"], Kinds=["L"], Prices=[10, 11],
+            Vols=[1, 2], ModPrices=[10, 11], ModVolsAbs=[-1], MaxSubmits=3, MaxBatch=2, MaxSteps=2, MaxOrders=2,
+            need=("has_modify", "has_trade"), timeout=400 if q else 1800)
+    env_traces(ck, "rand_env_modify", {"p_modify": 0.35, "nprices": 5, "max_batch": 8, "p_step": 0.15}, files=4 if q else 32, runs=3 if q else 6, ops=160, hook=False)
     prof = {"discipline": True, "audit_every": 25, "nprices": 8, "w": {"modify": 8, "event": 4, "cancel": 2}}
     ck.traces_stage("rand_modify", "record_book", prof, files=8 if q else 64, runs=2 if q else 4, ops=300)
     prof = {"discipline": False, "p_tie": 0.5, "audit_every": 25, "nprices": 5, "w": {"modify": 8, "toggle": 0.5}}
@@ -861,10 +871,55 @@ def py_env_gen(ck, name, mode="env", seeds=4, need=(), timeout=600, xcheck=0, **
     return r
 
 
-def py_traces(ck, name, mode, files, runs, ops):
-    spec = "BookTrace" if mode == "book" else "PyTrace"
-    ck.traces_stage(name, core.pycmd("pyrecord.py"), {"mode": mode}, files=files, runs=runs, ops=ops, trace_spec=spec,
-                    consts={"MaxPrice": MAXPRICE})
+def py_traces(ck, name, mode, files, runs, ops, engine=False, profile=None, timeout=600):
+    """Traces recorded through the compiled extension.  engine = True (environments): PyEnvTrace.tla - the specification's
+    environment is driven by the same calls, every step is explained by schedule inference, and the order table and trade log
+    Python reports must be the specification's after every event."""
+    spec = "BookTrace" if mode == "book" else ("PyEnvTrace" if engine else "PyTrace")
+    kw = dict(spec="ESpec", post="EAccepted", view="EView") if engine and mode != "book" else {}
+    ck.traces_stage(name, core.pycmd("pyrecord.py"), dict(profile or {}, mode=mode), files=files, runs=runs, ops=ops, trace_spec=spec,
+                    consts={"MaxPrice": MAXPRICE}, timeout=timeout, **kw)
+
+
+def py_scenarios(ck, name="py_repo_scenarios"):
+    """The repository's own Python scenarios - its Python tests, the code blocks of its documentation and docstrings, its
+    example script - run unmodified against the compiled extension with recording proxies in place of the extension classes
+    (py/pyscen.py); every event is validated by TLC: book objects against BookTrace.tla (Python clauses), environments
+    against PyEnvTrace.tla (views recomputed from the reported tables, specification environment run alongside)."""
+    import time
+    if ck.skip(name):
+        return
+    core.build_pyext()
+    d = os.path.join(core.WORK, "traces", "%s_%s" % (ck.prop, name))
+    os.makedirs(d, exist_ok=True)
+    t0 = time.time()
+    fb, fe = os.path.join(d, "book.ndjson"), os.path.join(d, "env.ndjson")
+    r = subprocess.run(core.pycmd("pyscen.py", "--repo", "/repo/", "--out-book", fb, "--out-env", fe), text=True, capture_output=True, env=core.pyenv())
+    if r.returncode != 0:
+        raise ToolError("%s: scenario recorder failed: %s" % (name, r.stderr[-2000:]))
+    summ = json.loads(r.stdout.strip().splitlines()[-1])
+    ck.add_features(summ["features"], name + ".")
+    if summ["features"].get("scenarios_run", 0) < 20 or summ["env_events"] < 200 or summ["book_events"] < 30:
+        raise ToolError("%s: vacuous - the repository's Python scenarios were not found or recorded almost nothing: %s" % (name, json.dumps(summ["features"])))
+    nrej = 0
+    for tag, f, spec, kw in (("book", fb, "BookTrace", {}), ("env", fe, "PyEnvTrace", dict(spec="ESpec", post="EAccepted", view="EView"))):
+        v = core.validate_trace("%s_%s_%s" % (ck.prop, name, tag), spec, f, consts={"MaxPrice": MAXPRICE}, timeout=900, **kw)
+        ck.states += v["states"]
+        ck.transitions += v["states"]
+        if not v["accepted"]:
+            nrej += 1
+            rj = v["reject"] or {}
+            from .runner import history_upto, strip_views
+            ck.violation(name, "a scenario of the repository itself (%s objects) is not a behaviour of the specification: event %s, %s" % (tag, rj.get("at"), rj.get("why")),
+                         {"kind": "trace", "trace_spec": spec, "recorder": "pyscen.py", "reject": strip_views(rj, keep=True), "history": history_upto(f, rj.get("at"))})
+    ck.traces += summ["runs"]
+    stopped = [x for x in summ["scenarios"] if not x["completed"]]
+    ck.stages.append({"stage": name, "kind": "record-validate (the repository's own Python tests, documentation code blocks and example script)",
+                      "scenarios": len(summ["scenarios"]), "objects_traced": summ["runs"], "events_validated": summ["events"], "rejected": nrej,
+                      "scenarios_stopped_by_their_own_assertion_or_a_missing_package": [x["scenario"] + ": " + x["why"] for x in stopped],
+                      "wall_s": round(time.time() - t0, 1)})
+    log("[%s] %d scenarios of the repository (%d objects, %d events) validated by TLC, %d trace files rejected, %d scenarios stopped early (%.1fs)" % (
+        name, len(summ["scenarios"]), summ["runs"], summ["events"], nrej, len(stopped), time.time() - t0))
 
 
 def c18(tier, seed):
@@ -902,7 +957,13 @@ def c18(tier, seed):
     py_traces(ck, "py_rand_book", "book", files=4 if q else 32, runs=3 if q else 6, ops=150)
     # StepEnv driven by the Python runner bourse.step_sim.run with (wrapped) RandomAgent members: loop structure, the
     # environment's behaviour and the Python RandomAgent relation, validated by TLC (PyTrace.tla)
-    py_traces(ck, "py_runner_sims", "sim", files=4 if q else 32, runs=4 if q else 8, ops=14 if q else 40)
+    py_traces(ck, "py_runner_sims", "sim", files=4 if q else 32, runs=4 if q else 8, ops=14 if q else 40, engine=True)
+    # long random call sequences through StepEnv / StepEnvNumpy with the specification's environment run alongside
+    # (PyEnvTrace.tla): every submission applied to the specification, every step explained by an inferred processing order,
+    # order table and trade log equal to the specification's after every event
+    py_traces(ck, "py_rand_env_engine", "env", files=4 if q else 32, runs=2 if q else 4, ops=120, engine=True)
+    py_traces(ck, "py_rand_numpy_engine", "numpy", files=4 if q else 32, runs=2 if q else 4, ops=120, engine=True)
+    py_scenarios(ck)
     return ck.finish("model_checking", LEVEL_TEXT, PY_RULE + "paths with at least one trade",
                      ("py_book_calls.has_trade", "py_book_toggle_snapshots.has_trade", "py_env_calls.has_trade"))
 
@@ -930,6 +991,7 @@ def c19(tier, seed):
     # frame column from the order table and trade log the same object reports (PyTrace.tla)
     py_traces(ck, "py_rand_env", "env", files=4 if q else 32, runs=3 if q else 6, ops=40)
     py_traces(ck, "py_rand_numpy", "numpy", files=4 if q else 32, runs=3 if q else 6, ops=40)
+    py_scenarios(ck)
     return ck.finish("model_checking", LEVEL_TEXT, PY_RULE + "paths on which bid and ask quantities differ (asymmetric books)",
                      ("py_env_layout.asymmetric", "py_numpy_layout.asymmetric", "py_env_layout_deep.asymmetric"))
 
